@@ -528,6 +528,11 @@ def mutate(rng, b):
     if k < 0.7:
         # a 16-bit field at an even offset set to a boundary value or +-1
         off = rng.randrange(0, max(1, len(b) - 1)) & ~1
+        if rng.random() < 0.35:
+            # the fields every packet has: count / message length (offset 2), the first set's id and
+            # length (IPFIX 16/18, V9 20/22); a random offset rarely lands on them in a long packet
+            ver = int.from_bytes(b[:2], "big")
+            off = rng.choice([2, 2, 2, 16, 18] if ver == 10 else [2, 2, 2, 20, 22] if ver == 9 else [2])
         if off + 2 <= len(b):
             cur = int.from_bytes(b[off : off + 2], "big")
             new = rng.choice(BOUNDARY16 + [(cur + 1) & 0xFFFF, (cur - 1) & 0xFFFF, (cur + 4) & 0xFFFF, (cur - 4) & 0xFFFF])
@@ -544,6 +549,27 @@ def mutate(rng, b):
     else:
         b[i:i] = b[i:j]
     return bytes(b)
+
+
+def header_field_case(rng, tables, versions=(5, 7, 9, 10)):
+    """2-4 conformant packets in one buffer or one per call; in one of them the count / length
+    field of the header (offset 2) or of the first set is a small or off-by-one value"""
+    ex = Exporter(rng, tables, True)
+    pk = [rand_packet(rng, ex, versions)[0] for _ in range(rng.choice([2, 3, 4]))]
+    i = rng.randrange(len(pk))
+    b = bytearray(pk[i])
+    ver = int.from_bytes(b[:2], "big")
+    off = rng.choice([2, 2, 18] if ver == 10 else [2, 2, 22] if ver == 9 else [2])
+    if off + 2 <= len(b):
+        cur = int.from_bytes(b[off : off + 2], "big")
+        new = rng.choice(list(range(0, 21)) + [(cur + d) & 0xFFFF for d in (-2, -1, 1, 2, 3, 4)])
+        b[off : off + 2] = be(new, 2)
+    pk[i] = bytes(b)
+    if rng.random() < 0.5:
+        ops = ["P 0", "B 0 %s" % hexs(b"".join(pk))]
+    else:
+        ops = ["P 0"] + ["B 0 %s" % hexs(x) for x in pk]
+    return Case("header-field", ops)
 
 
 def mutated_stream(rng, tables, versions=(5, 7, 9, 10), conformant_templates=False):
